@@ -1282,7 +1282,7 @@ def checkCapability(hostmask, capability, users=users, channels=channels,
         elif not ignoreDefaultAllow:
             return _x(capability, c.defaultAllow)
         else:
-            return False
+            return _x(capability, False)
     defaultCapabilities = conf.supybot.capabilities()
     defaultCapabilitiesRegistered = conf.supybot.capabilities.registeredUsers()
     if capability in defaultCapabilities:
